@@ -259,6 +259,14 @@ class BundleFlattener(ElabPass):
             msg = f"Invalid Port Connection to {portname} on Instance {inst}"
             self.fail(msg)
 
+        # Everything the connection brings along must have a place to go:
+        # members the port does not have would otherwise be dropped silently.
+        extras = [path for path in flat.signals if path not in flat_bundle_port.signals]
+        if extras and isinstance(flat.src, AnonymousBundle):
+            msg = f"Invalid connection to `{portname}` on Instance `{inst.name}`: "
+            msg += f"no such member(s) `{['.'.join(p.segs) for p in extras]}` in its Bundle. "
+            self.fail(msg)
+
         # Disconnect the old hierarchical Bundle port
         inst.disconnect(portname)
 
